@@ -13,6 +13,7 @@
  *  VERIF_CLOCK=t           time(), gettimeofday(), clock_gettime(CLOCK_REALTIME) return t
  *  VERIF_URANDOM=seed      open("/dev/urandom") yields a seeded stream
  *  VERIF_JITTER=seed:permille:maxus  random yields/sleeps before in-scope pread/pwrite
+ *  VERIF_SLOW=substr:usec            sleep usec before every pwrite to a path containing substr (makes one writer thread lag)
  *  VERIF_COUNT=file        at exit write the number of state-changing calls seen
  *
  * State-changing calls: creat(open with O_CREAT|O_TRUNC), write, pwrite, rename, ftruncate,
@@ -51,6 +52,8 @@ static char *pause_file;
 static long clock_t0 = -1;
 static long urandom_seed = -1;
 static long jitter_seed = -1, jitter_permille, jitter_maxus;
+static char slow_sub[128];
+static long slow_us;
 static char *count_file;
 
 struct failspec { char op[16]; char sub[128]; long lo, hi; int err; long seen; };
@@ -153,6 +156,8 @@ static void init(void)
 	if (e && *e) urandom_seed = atol(e);
 	e = getenv("VERIF_JITTER");
 	if (e && *e) sscanf(e, "%ld:%ld:%ld", &jitter_seed, &jitter_permille, &jitter_maxus);
+	e = getenv("VERIF_SLOW");
+	if (e) { const char *c = strrchr(e, ':'); if (c && (size_t)(c - e) < sizeof(slow_sub)) { memcpy(slow_sub, e, (size_t)(c - e)); slow_sub[c - e] = 0; slow_us = atol(c + 1); } }
 	e = getenv("VERIF_COUNT");
 	if (e && *e) count_file = strdup(e);
 	e = getenv("VERIF_FAIL");
@@ -381,6 +386,7 @@ ssize_t pwrite(int fd, const void *buf, size_t n, off_t off)
 	p = path_of(fd);
 	if (!p) return r_pwrite(fd, buf, n, off);
 	jitter();
+	if (slow_us > 0 && strstr(p, slow_sub)) usleep((useconds_t)slow_us);
 	pthread_mutex_lock(&mu);
 	cur_seq = ++seq;
 	check_signal("pwrite", p);
